@@ -276,8 +276,20 @@ func VerifC18retain() {
 			return
 		}
 		pre := obsOf(dec)
-		ndAssert("c18-decoded-claims-do-not-alias-input", !ndReaches(dec, buf))
+		var enc0, js0 []byte
+		if !ndSymbolic() {
+			// (natively a retained reference shows in whatever is derived from the claims later)
+			enc0, _ = EncodeClaimsToCBOR(dec)
+			js0, _ = EncodeClaimsToJSON(dec)
+		}
+		aliasFree := !ndReaches(dec, buf)
 		verifScribble(buf)
+		if !ndSymbolic() {
+			enc1, _ := EncodeClaimsToCBOR(dec)
+			js1, _ := EncodeClaimsToJSON(dec)
+			aliasFree = verifSameBytes(enc0, enc1) && verifSameBytes(js0, js1)
+		}
+		ndAssert("c18-decoded-claims-do-not-alias-input", aliasFree)
 		ndAssert("c18-overwriting-input-changes-no-getter", obsSame(pre, obsOf(dec), -1))
 		ndCover("c18-retain-ran", true)
 	default:
